@@ -35,3 +35,25 @@ def windows (gs : List Gr) (anchor cur : Nat) : Option (List (Nat × Nat)) :=
 
 end Block
 end Vicut
+
+namespace Vicut
+namespace Block
+
+/-- The corner handling **before** fix 673f6a4: the right-hand corner's *position* was incremented and its
+column taken afresh — one past a line terminator is column 0 of the next line. (Rows as they are now.) -/
+def windowsOldCorner (gs : List Gr) (anchor cur : Nat) : Option (List (Nat × Nat)) :=
+  match indexCol gs cur, indexCol gs anchor with
+  | some cc0, some ac0 =>
+    let cur' := if cc0 ≥ ac0 then cur + 1 else cur
+    let anchor' := if cc0 ≥ ac0 then anchor else anchor + 1
+    match indexCol gs cur', indexCol gs anchor' with
+    | some cc, some ac =>
+      let cl := cursorLine ⟨gs, cur, false⟩
+      let al := indexLine gs anchor'
+      some ((List.range' (min cl al) (max cl al - min cl al + 1)).filterMap
+        (fun ln => (lineBounds gs ln).map (row gs ac cc)))
+    | _, _ => none
+  | _, _ => none
+
+end Block
+end Vicut
